@@ -73,7 +73,7 @@ def script_cfg(tokenAuth, smartCard, h):
     return c
 
 
-def step_of(pkt, cfg, h, tun):
+def step_of(pkt, cfg, h, tun, variant=None):
     """Model packet -> abstract script step (python side picks concrete classes)."""
     p = parse_tla_value(pkt)
     k = p["k"]
@@ -90,7 +90,7 @@ def step_of(pkt, cfg, h, tun):
             variants = [(["H1"], "PE"), (["H2"], tun["hostPort"]), (["H1", "NUL", "H1"], tun["hostPort"])]
             if cfg["tokenAuth"] and cfg["sel"] != "roundrobin":
                 variants.append((["H1"], "PB" if tun["hostPort"] != "PB" else "PA"))
-            n, pt = variants[h % len(variants)]
+            n, pt = variants[(h if variant is None else variant) % len(variants)]
             if cfg["sel"] == "any" and not cfg["tokenAuth"]:
                 # 'any' without a token allows every host: a refusal cannot be provoked
                 n, pt = ["H1"], "PE"
@@ -115,7 +115,10 @@ def gen_graph_scripts(work, seed, tier):
     nprobe = 1 if tier == "quick" else 3
     for (c, path, a) in cover:
         tokenAuth, smartCard = cfg_of_core(c)
-        for pi in range(nprobe):
+        # a refused channel request is run once per way of being refused (another port, another host, an embedded NUL,
+        # a host the list allows but the token does not name)
+        nvar = 4 if ('"chan"' in a and '"no"' in a) else 1
+        for pi in range(nprobe * nvar):
             h = stable_hash("%s|%s|%s|%d|%d" % (c, path, a, pi, seed))
             cfg = script_cfg(tokenAuth, smartCard, h)
             user = "user1" if cfg["auth"] == "openid" else ("7" if cfg["auth"] == "local" else "nuser1")
@@ -137,7 +140,7 @@ def gen_graph_scripts(work, seed, tier):
                 tun.update({"hostPort": "PD", "entry": ["H1", ":", "PD"]})
             elif tun["hostPort"] == "PD":
                 tun.update({"hostPort": "PA", "entry": ["H1", ":", "PA"]})
-            steps = [step_of(x, cfg, stable_hash(x + str(i) + str(h)), tun) for i, x in enumerate(seq)]
+            steps = [step_of(x, cfg, stable_hash(x + str(i) + str(h)), tun, variant=(pi if nvar > 1 and i == len(path) else None)) for i, x in enumerate(seq)]
             transports = ["ws", "legacy"] if tier == "thorough" else [["ws", "legacy"][h % 2]]
             for tr in transports:
                 scripts.append({"id": "g%05d-%s" % (len(scripts), tr), "origin": "graph:%s/%s" % (c[1], a), "cfg": cfg,
@@ -236,7 +239,8 @@ def policy_states(work, mode):
     return r, qs
 
 
-ADDR_TEXT = {"a": "10.0.0.1", "b": "10.0.0.2", "c": "::1", "c2": "0:0:0:0:0:0:0:1", "p": "192.168.9.9", "zz": "172.16.0.9"}
+ADDR_TEXT = {"a": "10.0.0.1", "b": "10.0.0.2", "c": "::1", "c2": "0:0:0:0:0:0:0:1", "p": "192.168.9.9", "zz": "172.16.0.9",
+             "u1": "203.0.113.5:51234", "u2": "198.51.100.7:40000", "v1": "[2001:db8::5]", "v2": "[2001:db8::7]", "w1": "unknown", "w2": "hidden"}
 ADDR_PEER = {"a": "127.0.0.1", "b": "127.0.0.2", "c": "::1", "c2": "::1", "p": "127.0.0.9"}
 
 
@@ -276,7 +280,7 @@ def policy_script(q, i, seed, mode):
     if mode == "addr":
         ta = q["tokAddr"]
         # issuance address: through X-Forwarded-For (any text) or as the TCP peer
-        if h % 2 == 0 or ta["text"] == "c2":
+        if h % 2 == 0 or ta["text"] not in ADDR_PEER or ta["text"] == "c2":
             tun["mintXFF"] = ADDR_TEXT[ta["text"]]
         else:
             tun["mintIP"] = ADDR_PEER[ta["text"]]
@@ -293,7 +297,12 @@ def policy_script(q, i, seed, mode):
              {"k": "auth", "cls": "valid"},
              {"k": "chan", "cls": cls, "name": q["name"], "port": q["port"]},
              {"k": "data", "cls": "valid", "n": 8}]
-    return {"id": "%s%05d" % (mode[0], i), "origin": "policy:%s" % mode, "cfg": cfg, "transport": ["ws", "legacy"][h % 2], "tun": tun, "steps": steps}
+    transport = ["ws", "legacy"][h % 2]
+    if mode == "host" and transport == "ws" and h % 3 != 0:
+        # tunnels of different users following each other on one gateway with the same connection identifier: what a
+        # tunnel is allowed does not depend on who used the identifier before
+        tun["cid"] = "{6f1c7a52-0000-4000-8000-%012d}" % (h % 2)
+    return {"id": "%s%05d" % (mode[0], i), "origin": "policy:%s" % mode, "cfg": cfg, "transport": transport, "tun": tun, "steps": steps}
 
 
 def gen_policy_scripts(work, mode, tier, seed, quick_n=1500):
@@ -309,7 +318,13 @@ def gen_policy_scripts(work, mode, tier, seed, quick_n=1500):
         buckets = collections.defaultdict(list)
         for s in scripts:
             st = s["steps"][3]
-            buckets[(s["cfg"]["sel"], json.dumps(s["cfg"]["hosts"]), json.dumps(st["name"]), s["cfg"]["tokenAuth"])].append(s)
+            if mode == "addr":
+                # every (issuing address, presenting address) pair with both settings of the switch
+                t = s["tun"]
+                cli = (t.get("useXFF") or "").split(",")[0].strip() or t.get("useIP")
+                buckets[(s["cfg"]["tokenAuth"], s["cfg"]["verifyIp"], str(t.get("mintXFF") or t.get("mintIP")), str(cli))].append(s)
+            else:
+                buckets[(s["cfg"]["sel"], json.dumps(s["cfg"]["hosts"]), json.dumps(st["name"]), s["cfg"]["tokenAuth"])].append(s)
         keep = []
         per = max(1, quick_n // max(1, len(buckets)))
         for k in sorted(buckets):
